@@ -197,26 +197,87 @@ def rule_rw(rep, d, cls):
         if key not in expect:
             continue
         lab = "any::cast<%s>()%s" % (ta, " const" if ir.qtype(f).rstrip().endswith("const noexcept") or ") const" in ir.qtype(f) else "")
-        conds = [n for n in ir.walk_expr(f) if n.get("kind") == "ConditionalOperator"]
-        if len(conds) != 1:
-            rep.inconclusive(R, lab, "storage selection", where=d.where(f), detail="expected one conditional selecting the storage")
+        # the storage member read in the arm / branch that the (constant) condition selects for this T, however the selection is written
+        class Undecided(Exception):
+            pass
+
+        def cval(n_):
+            n_ = ir.strip(n_)
+            kk = ir.ekids(n_)
+            if n_.get("kind") == "DeclRefExpr":
+                rid = (n_.get("referencedDecl") or {}).get("id")
+                if rid in ids:
+                    return ids[rid]
+                dec = d.by_id.get(rid)
+                if dec is not None and dec.get("kind") == "VarDecl" and ir.ekids(dec):
+                    return cval(ir.ekids(dec)[-1])
+                raise Undecided()
+            if n_.get("kind") == "UnaryOperator" and n_.get("opcode") == "!":
+                return not cval(kk[0])
+            if n_.get("kind") == "CXXBoolLiteralExpr":
+                return bool(n_.get("value"))
+            if n_.get("kind") in ("ImplicitCastExpr", "ConstantExpr", "ParenExpr") and kk:
+                return cval(kk[-1])
+            raise Undecided()
+
+        def reads(n_, out):
+            if not isinstance(n_, dict):
+                return
+            k_ = n_.get("kind")
+            if k_ == "ConditionalOperator":
+                c_, a_, b_ = ir.ekids(n_)
+                reads(a_ if cval(c_) else b_, out)
+                return
+            if k_ == "IfStmt":
+                raw = [c for c in n_.get("inner", []) if isinstance(c, dict)]
+                if len(raw) >= 2:
+                    v_ = cval(raw[0])
+                    branch = raw[1] if v_ else (raw[2] if len(raw) > 2 else None)
+                    reads(branch, out)
+                    return
+            if k_ == "MemberExpr" and n_.get("name") in ("dynamic", "stack"):
+                out.append((n_.get("name"), n_))
+            if k_ == "DeclRefExpr":
+                dec = d.by_id.get((n_.get("referencedDecl") or {}).get("id"))
+                if dec is not None and dec.get("kind") == "VarDecl" and "*" in ir.qtype(dec) and ir.ekids(dec) and id(dec) not in seen_decl:
+                    seen_decl.add(id(dec))
+                    reads(ir.ekids(dec)[-1], out)
+            for c in n_.get("inner", []) or []:
+                if isinstance(c, dict) and c.get("kind") != "VarDecl":
+                    reads(c, out)
+        rets = [n for n in ir.walk_expr(f) if n.get("kind") == "ReturnStmt"]
+        got = []
+        seen_decl = set()
+        try:
+            # walk the body, but only what is returned matters: locals are followed from their uses
+            def walk_stmt(n_):
+                if n_.get("kind") == "ReturnStmt":
+                    reads(n_, got)
+                    return
+                if n_.get("kind") == "IfStmt":
+                    raw = [c for c in n_.get("inner", []) if isinstance(c, dict)]
+                    v_ = cval(raw[0])
+                    br = raw[1] if v_ else (raw[2] if len(raw) > 2 else None)
+                    if br is not None:
+                        walk_stmt(br)
+                    return
+                for c in ir.kids(n_):
+                    if c.get("kind") in ("CompoundStmt", "IfStmt", "ReturnStmt"):
+                        walk_stmt(c)
+            walk_stmt(ir.body(f))
+        except Undecided:
+            rep.inconclusive(R, lab, "storage selection", where=d.where(f), detail="condition is not an integral_constant<bool,B>::value")
             continue
-        c, a, b = ir.ekids(conds[0])
-        ref = ir.strip(c)
-        val = ids.get((ref.get("referencedDecl") or {}).get("id")) if ref.get("kind") == "DeclRefExpr" else None
-        ta_, tb_ = ir.sx(a), ir.sx(b)
-        arms_ok = any(s[0] == "mem" and s[2] == "dynamic" for s in ir.subterms(ta_)) and any(s[0] == "mem" and s[2] == "stack" for s in ir.subterms(tb_)) \
-            and not any(s[0] == "mem" and s[2] == "stack" for s in ir.subterms(ta_))
-        if val is None:
-            rep.inconclusive(R, lab, "storage selection", where=d.where(conds[0]), detail="condition is not an integral_constant<bool,B>::value")
-        elif not arms_ok:
-            rep.violates(R, lab, "storage selection", where=d.where(conds[0]), detail="the true arm must read storage.dynamic and the false arm &storage.stack")
-        elif val != expect[key][0]:
-            rep.violates(R, lab, "storage selection", where=d.where(conds[0]),
+        kinds = {g[0] for g in got}
+        want = "dynamic" if expect[key][0] else "stack"
+        if len(kinds) != 1:
+            rep.inconclusive(R, lab, "storage selection", where=d.where(f), detail="expected exactly one storage member to be read for this T, found %s" % sorted(kinds))
+        elif kinds != {want}:
+            rep.violates(R, lab, "storage selection", where=d.where(got[0][1]),
                          detail="reads the %s although a %s is stored %s (the decision must be taken on the decayed type)" % (
-                             "heap pointer" if val else "in-place buffer", key, "on the heap" if expect[key][0] else "in place"))
+                             "heap pointer" if "dynamic" in kinds else "in-place buffer", key, "on the heap" if expect[key][0] else "in place"))
         else:
-            rep.holds(R, lab, "storage selection", where=d.where(conds[0]), detail="%s" % ("heap pointer" if val else "in-place buffer"))
+            rep.holds(R, lab, "storage selection", where=d.where(got[0][1]), detail="%s" % ("heap pointer" if want == "dynamic" else "in-place buffer"))
 
 
 # ---------------------------------------------------------------------------------------------------------------------
@@ -231,6 +292,32 @@ class SlotSim:
     def __init__(self, d, family_fns):
         self.d = d
         self.fns = family_fns        # name -> decl (same family, same T)
+
+    SLOTS = ("destroy", "copy", "move", "swap", "type")
+
+    def sx(self, n):
+        return self.expand(ir.sx(n))
+
+    def expand(self, t, depth=0):
+        """accessor helpers of the family (single `return <expr>;`, e.g. an extracted object(storage)) are replaced by what they return"""
+        if not isinstance(t, tuple):
+            return t
+        t = tuple(self.expand(x, depth) if isinstance(x, tuple) else x for x in t)
+        if len(t) >= 2 and t[0] == "call" and isinstance(t[1], tuple) and t[1][0] == "ref" and t[1][1] in self.fns and t[1][1] not in self.SLOTS and depth < 3:
+            fn = self.fns[t[1][1]]
+            ks = ir.kids(ir.body(fn)) if ir.body(fn) else []
+            if len(ks) == 1 and ks[0].get("kind") == "ReturnStmt" and ir.ekids(ks[0]):
+                ps = [p.get("name") for p in ir.params(fn)]
+                m = dict(zip(ps, t[2:]))
+
+                def subst(x):
+                    if not isinstance(x, tuple):
+                        return x
+                    if x[0] == "ref" and x[1] in m:
+                        return m[x[1]]
+                    return tuple(subst(y) if isinstance(y, tuple) else y for y in x)
+                return self.expand(subst(ir.sx(ir.ekids(ks[0])[0])), depth + 1)
+        return t
 
     def run(self, fn, init, alias=False):
         """init: param name -> 'L'|'D'; returns list of (outcome, storages, objects)"""
@@ -276,6 +363,24 @@ class SlotSim:
             objs[oid] = {"root": root, "destroyed": 0}
             return oid
 
+        NOPTR = "no pointer local"
+
+        def ptr_obj(t):
+            for s_ in ir.subterms(t):
+                if s_[0] == "ref" and isinstance(bind.get(s_[1]), tuple) and bind[s_[1]][0] == "ptr":
+                    return bind[s_[1]][1]
+            return NOPTR
+
+        def kill(oid, what):
+            if oid is None:
+                raise SlotViolation("%s through a null pointer local" % what)
+            if objs[oid]["destroyed"]:
+                raise SlotViolation("%s: the object was already destroyed" % what)
+            objs[oid]["destroyed"] += 1
+            for k_ in list(st):
+                if st[k_] == oid:
+                    st[k_] = None
+
         def need_live(key, what):
             if st.get(key) is None:
                 raise SlotViolation("%s: storage `%s` holds no live object here" % (what, key))
@@ -287,20 +392,42 @@ class SlotSim:
             i += 1
             if step[0] == "decl":
                 v = step[1]
-                if "storage_union" in ir.qtype(v):
+                if "storage_union" in ir.qtype(v) and "*" not in ir.qtype(v) and "&" not in ir.qtype(v):
                     key = "L_%s_%d" % (v.get("name"), depth)
                     bind[v.get("name")] = key
                     st[key] = None
+                elif "*" in ir.qtype(v) and ir.ekids(v):
+                    # a pointer local: it names the object the storage held when it was initialised (or the one just allocated)
+                    init = ir.ekids(v)[-1]
+                    if any(x.get("kind") == "CXXNewExpr" for x in [ir.strip(init)] + list(ir.walk_expr(init))):
+                        bind[v.get("name")] = ("ptr", self._pending_new)
+                    else:
+                        ti = self.sx(init)
+                        key, fld = self.storage_of(ti, bind)
+                        if key is not None:
+                            bind[v.get("name")] = ("ptr", st.get(key))
+                        else:
+                            o_ = ptr_obj(ti)
+                            if o_ is not NOPTR:
+                                bind[v.get("name")] = ("ptr", o_)
+                elif "&" in ir.qtype(v) and "storage_union" in ir.qtype(v) and ir.ekids(v):
+                    ti = self.sx(ir.ekids(v)[-1])
+                    if ti[0] == "ref" and ti[1] in bind:
+                        bind[v.get("name")] = bind[ti[1]]
                 continue
             if step[0] != "ev":
                 continue
             n = step[1]
             k = n.get("kind")
-            t = ir.sx(n)
+            t = self.sx(n)
             if k == "CXXDeleteExpr":
                 key, fld = self.storage_of(t, bind)
                 if key is None:
-                    raise SlotViolation("delete of something that is not a storage pointer")
+                    o_ = ptr_obj(t)
+                    if o_ is NOPTR:
+                        raise SlotViolation("delete of something that is not a storage pointer")
+                    kill(o_, "delete")
+                    continue
                 need_live(key, "delete")
                 objs[st[key]]["destroyed"] += 1
                 st[key] = None
@@ -309,22 +436,31 @@ class SlotSim:
                 # reads
                 args = [a for a in ir.ekids(n)]
                 placement = [a for a in args if a.get("kind") not in ("CXXConstructExpr", "InitListExpr", "CXXFunctionalCastExpr", "ImplicitCastExpr") or
-                             any(s[0] == "mem" and s[2] == "stack" and s[1][0] == "ref" for s in ir.subterms(ir.sx(a))) and a.get("kind") == "ImplicitCastExpr" and a.get("castKind") == "BitCast"]
+                             any(s[0] == "mem" and s[2] == "stack" and s[1][0] == "ref" for s in ir.subterms(self.sx(a))) and a.get("kind") == "ImplicitCastExpr" and a.get("castKind") == "BitCast"]
                 ctor = [a for a in args if a not in placement]
                 src_key = None
+                src_oid = NOPTR
                 is_move = False
                 for a in ctor:
-                    ta = ir.sx(a)
+                    ta = self.sx(a)
                     sk, _ = self.storage_of(ta, bind)
                     if sk is not None:
                         src_key = sk
                         is_move = any(s[0] == "call" and s[1] == ("ref", "move") for s in ir.subterms(ta))
+                    elif ptr_obj(ta) is not NOPTR:
+                        src_oid = ptr_obj(ta)
+                        is_move = any(s[0] == "call" and s[1] == ("ref", "move") for s in ir.subterms(ta))
                 if src_key is not None:
                     need_live(src_key, "construction from")
-                root = ("copy", objs[st[src_key]]["root"]) if (src_key is not None and not is_move) else (objs[st[src_key]]["root"] if src_key is not None else "new")
+                    src_oid = st[src_key]
+                elif src_oid is not NOPTR:
+                    if src_oid is None or objs[src_oid]["destroyed"]:
+                        raise SlotViolation("construction from an object that is not alive")
+                has_src = src_oid is not NOPTR
+                root = ("copy", objs[src_oid]["root"]) if (has_src and not is_move) else (objs[src_oid]["root"] if has_src else "new")
                 dest_key = None
                 if placement:
-                    dest_key, _ = self.storage_of(ir.sx(placement[0]), bind)
+                    dest_key, _ = self.storage_of(self.sx(placement[0]), bind)
                     if dest_key is None:
                         raise SlotViolation("placement new into something that is not a storage")
                     if st.get(dest_key) is not None and not objs[st[dest_key]]["destroyed"]:
@@ -335,14 +471,13 @@ class SlotSim:
                 continue
             if k == "BinaryOperator" and n.get("opcode") == "=":
                 lhs, rhs = ir.ekids(n)
-                lk, lf = self.storage_of(ir.sx(lhs), bind)
+                lk, lf = self.storage_of(self.sx(lhs), bind)
                 if lk is None or lf != "dynamic":
                     continue
                 rs = ir.strip(rhs)
-                rt = ir.sx(rhs)
+                rt = self.sx(rhs)
+                # an overwritten owner is not judged here: an object that ends up owned by no storage is reported at exit (leak)
                 if rs.get("kind") == "CXXNewExpr":
-                    if st.get(lk) is not None and not objs[st[lk]]["destroyed"]:
-                        raise SlotViolation("heap pointer in `%s` overwritten while it owns a live object (leak)" % lk)
                     st[lk] = self._pending_new
                     continue
                 if rt == ("lit", "nullptr"):
@@ -351,17 +486,20 @@ class SlotSim:
                 rk, rf = self.storage_of(rt, bind)
                 if rk is not None and rf == "dynamic":
                     need_live(rk, "pointer copy from")
-                    if st.get(lk) is not None and st[lk] != st[rk] and not objs[st[lk]]["destroyed"]:
-                        raise SlotViolation("heap pointer in `%s` overwritten while it owns a live object (leak)" % lk)
                     st[lk] = st[rk]
+                    continue
+                if ptr_obj(rt) is not NOPTR:
+                    st[lk] = ptr_obj(rt)
                     continue
                 raise SlotViolation("storage pointer assigned from `%s`" % ir.show(rt))
             if k in ("CXXPseudoDestructorExpr",) or (k == "CXXMemberCallExpr" and t[0] == "call" and t[1][0] == "mem" and str(t[1][2]).startswith("~")):
                 key, fld = self.storage_of(t, bind)
-                if key is None:
-                    continue
                 par = d.parent_of(n)
                 if k == "CXXPseudoDestructorExpr" and (par is None or par.get("kind") != "CallExpr"):
+                    continue
+                if key is None:
+                    if ptr_obj(t) is not NOPTR:
+                        kill(ptr_obj(t), "destructor call")
                     continue
                 need_live(key, "destructor call")
                 objs[st[key]]["destroyed"] += 1
@@ -851,9 +989,22 @@ def rule_life(rep, d, cls, selfswap):
     sim = AnySim(d, cls, all(selfswap.values()) if selfswap else False)
     fns = [f for f in members(d, cls) if not ir.is_template_pattern(d, f)]
     done = set()
+    from .. import fstring as _fs
+    access = _fs.member_access(cls)
+    called = {}
+    for f in fns:
+        for n in ir.walk_expr(f):
+            if n.get("kind") == "CXXMemberCallExpr":
+                c = ir.strip(ir.ekids(n)[0])
+                if c.get("kind") == "MemberExpr" and c.get("referencedMemberDecl"):
+                    called[c.get("referencedMemberDecl")] = called.get(c.get("referencedMemberDecl"), 0) + 1
     for fn in fns:
         nm = fn.get("name")
         if nm in ("empty", "has_value", "type", "is_typed", "is_same", "cast", "vtable_for_type"):
+            continue
+        if access.get(fn.get("id"), "public") != "public" and nm != "construct" and fn.get("kind") == "CXXMethodDecl" and called.get(fn.get("id")):
+            # a non-public helper may rely on a precondition its callers establish: it is analysed inlined into every caller, not on its own
+            rep.note("any::%s is non-public: analysed through its %d call site(s)" % (nm, called[fn.get("id")]))
             continue
         ps = ir.params(fn)
         sig = (nm, fn.get("kind"), tuple(ir.qtype(p) if "any" in ir.qtype(p) else "value" for p in ps))
@@ -1082,46 +1233,182 @@ def rule_cast(rep, d, cls):
             else:
                 bad = "a path does not test the pointer"
         (rep.violates if bad else rep.holds)(R, "detail::check_any_cast", "throws bad_any_cast exactly for nullptr", where=d.where(f), **({"detail": bad} if bad else {}))
-    # type() / is_typed() / is_same() / empty()
+    # type() / is_typed() / is_same() / empty() / has_value(): evaluated for an empty and for a non-empty any along every path, so any equivalent
+    # spelling (negation, early return, the sibling predicate) is accepted and any other mapping is not
+    mem_by = {}
+    for f in members(d, cls):
+        mem_by.setdefault(f.get("name"), f)
+    NULL, VT = "nullptr", "a vtable"
+
+    def uncast(t):
+        while t[0] == "cast":
+            t = t[3]
+        return t
+
+    def evalx(t, vt, linit, depth=0):
+        t = uncast(t)
+        k = t[0]
+        if t == ("mem", ("this",), "vtable"):
+            return vt
+        if t == ("lit", "nullptr"):
+            return NULL
+        if k == "lit" and t[1] in ("true", "false"):
+            return t[1] == "true"
+        if k == "ref" and t[1] in linit:
+            return evalx(linit[t[1]], vt, linit, depth)
+        if k == "call" and t[1][0] == "mem" and t[1][1] == ("this",) and t[1][2] in ("empty", "has_value") and len(t) == 2 and depth < 4 and t[1][2] in mem_by:
+            return run_fn(mem_by[t[1][2]], vt, depth + 1)
+        if k == "un" and t[1] == "!":
+            v = evalx(t[2], vt, linit, depth)
+            if v in (NULL, VT):
+                v = v == VT
+            return (not v) if isinstance(v, bool) else None
+        if k == "bin" and t[1] in ("&&", "||"):
+            x = evalx(t[2], vt, linit, depth)
+            if x in (NULL, VT):
+                x = x == VT
+            if not isinstance(x, bool):
+                return None
+            if x == (t[1] == "||"):
+                return x
+            y = evalx(t[3], vt, linit, depth)
+            return (y == VT) if y in (NULL, VT) else y
+        if k == "bin" and t[1] in ("==", "!="):
+            x, y = evalx(t[2], vt, linit, depth), evalx(t[3], vt, linit, depth)
+            if x not in (NULL, VT) or y not in (NULL, VT) or (x == VT and y == VT):
+                return None
+            return (x == y) == (t[1] == "==")
+        if k == "cond":
+            c = evalx(t[1], vt, linit, depth)
+            if c in (NULL, VT):
+                c = c == VT
+            return evalx(t[2] if c else t[3], vt, linit, depth) if isinstance(c, bool) else None
+        return None
+
+    def feasible_returns(fn, vt, depth=0):
+        """[(return node, linit)] of the paths that are feasible for this vtable state; None if a condition is not evaluable"""
+        linit = {}
+        for x in ir.walk_expr(fn):
+            if x.get("kind") == "VarDecl" and ir.ekids(x):
+                linit[x.get("name")] = ir.sx(ir.ekids(x)[-1])
+        outs = []
+        for path in flow.function_paths(fn, with_ctor_inits=False):
+            feas = True
+            for s_ in path:
+                if s_[0] == "cond":
+                    v = evalx(ir.sx(s_[1]), vt, linit, depth)
+                    if v in (NULL, VT):
+                        v = v == VT
+                    if not isinstance(v, bool):
+                        return None, linit
+                    if v != s_[2]:
+                        feas = False
+                        break
+            if feas:
+                outs.append(path)
+        return outs, linit
+
+    def run_fn(fn, vt, depth=0):
+        paths, linit = feasible_returns(fn, vt, depth)
+        if paths is None:
+            return None
+        got = set()
+        for path in paths:
+            if path[-1][0] != "return" or not ir.ekids(path[-1][1]):
+                return None
+            rt = ir.sx(ir.ekids(path[-1][1])[0])
+            v = evalx(rt, vt, linit, depth)
+            if v in (NULL, VT):
+                v = v == VT
+            if v is None:
+                lastc = [s_ for s_ in path if s_[0] == "cond"]
+                v = lastc[-1][2] if lastc and uncast(rt)[0] == "bin" and uncast(rt)[1] in ("&&", "||") else None
+            got.add(v)
+        return got.pop() if len(got) == 1 else None
+
+    for nm, want in (("empty", {NULL: True, VT: False}), ("has_value", {NULL: False, VT: True})):
+        f = mem_by.get(nm)
+        if f is None:
+            continue
+        for vt in (NULL, VT):
+            g = run_fn(f, vt)
+            ok = g is want[vt]
+            (rep.holds if ok else rep.violates)(R, "any::" + nm, "defining shape", where=d.where(f), scenario="vtable is %s" % vt,
+                                                **({} if ok else {"detail": "yields %s when the vtable pointer is %s" % ("something not evaluable" if g is None else g, vt)}))
     shapes = {
-        "empty": [("bin", "==", ("mem", ("this",), "vtable"), ("lit", "nullptr")), ("un", "!", ("mem", ("this",), "vtable"))],
-        "has_value": [("un", "!", ("call", ("mem", ("this",), "empty"))), ("bin", "!=", ("mem", ("this",), "vtable"), ("lit", "nullptr"))],
-        "is_typed": [("call", ("ref", "is_same"), ("call", ("mem", ("this",), "type")), ("ref", "t")), ("bin", "==", ("call", ("mem", ("this",), "type")), ("ref", "t"))],
         "is_same": [("bin", "==", ("ref", "a"), ("ref", "b")), ("bin", "==", ("un", "&", ("ref", "a")), ("un", "&", ("ref", "b")))],
     }
     for f in members(d, cls):
         nm = f.get("name")
-        if nm in shapes:
+        if nm == "is_same":
             b = ir.body(f)
             rets = [x for x in ir.walk_expr(b) if x.get("kind") == "ReturnStmt"]
             got = ir.sx(ir.ekids(rets[0])[0]) if len(rets) == 1 else None
             if got is not None and got[0] == "call" and got[1][0] == "mem" and got[1][1] != ("this",) and got[1][2].startswith("operator"):
                 got = ("bin", got[1][2][len("operator"):], got[1][1]) + tuple(got[2:])
+            if got is not None and got[0] == "bin" and got[1] == "==" and (got[0], got[1], got[3], got[2]) in shapes[nm]:
+                got = (got[0], got[1], got[3], got[2])
             if got in shapes[nm]:
                 rep.holds(R, "any::" + nm, "defining shape", where=d.where(f))
             else:
                 rep.violates(R, "any::" + nm, "defining shape", where=d.where(f), detail="returns `%s`" % (ir.show(got) if got else "?"))
-        if nm == "type":
+        if nm == "is_typed":
+            pn = ir.params(f)[0].get("name") if ir.params(f) else "t"
+            linit = {}
+            for x in ir.walk_expr(f):
+                if x.get("kind") == "VarDecl" and ir.ekids(x):
+                    linit[x.get("name")] = uncast(ir.sx(ir.ekids(x)[-1]))
             rets = [x for x in ir.walk_expr(ir.body(f)) if x.get("kind") == "ReturnStmt"]
-            c = ir.strip(ir.ekids(rets[0])[0]) if len(rets) == 1 else None
-            ok = False
-            det = "not a conditional on empty()"
-            if c is not None and c.get("kind") == "ConditionalOperator":
-                cc, a, b = ir.ekids(c)
-                tcond = ir.sx(cc)
-                neg = False
-                if tcond[0] == "un" and tcond[1] == "!":
-                    tcond, neg = tcond[2], True
-                if tcond in (("call", ("mem", ("this",), "empty")), ("bin", "==", ("mem", ("this",), "vtable"), ("lit", "nullptr"))):
-                    if neg:
-                        a, b = b, a
-                    ta = [x for x in ir.walk_expr(a) if x.get("kind") == "CXXTypeidExpr"]
-                    void_ok = len(ta) == 1 and ((ta[0].get("typeArg") or {}).get("qualType")) == "void"
-                    tb = ir.sx(b)
-                    slot_ok = tb[0] == "call" and tb[1] == ("mem", ("mem", ("this",), "vtable"), "type")
-                    ok = void_ok and slot_ok
-                    det = "empty -> typeid(void): %s; otherwise vtable->type(): %s" % (void_ok, slot_ok)
-            (rep.holds if ok else rep.violates)(R, "any::type", "typeid(void) when empty, else the vtable's type()", where=d.where(f), **({} if ok else {"detail": det}))
+            got = uncast(ir.sx(ir.ekids(rets[0])[0])) if len(rets) == 1 else None
+            if got is not None and got[0] == "call" and got[1][0] == "mem" and got[1][1] != ("this",) and got[1][2].startswith("operator"):
+                got = ("bin", got[1][2][len("operator"):], got[1][1]) + tuple(got[2:])
+            ops = None
+            if got is not None and got[0] == "call" and got[1] in (("ref", "is_same"), ("mem", ("this",), "is_same")) and len(got) == 4:
+                ops = [got[2], got[3]]
+            elif got is not None and got[0] == "bin" and got[1] == "==":
+                ops = [got[2], got[3]]
+            if ops is not None:
+                ops = [uncast(x) for x in ops]
+                ops = [linit.get(x[1], x) if x[0] == "ref" else x for x in ops]
+            ok = ops is not None and sorted(map(repr, ops)) == sorted(map(repr, [("call", ("mem", ("this",), "type")), ("ref", pn)]))
+            (rep.holds if ok else rep.violates)(R, "any::is_typed", "defining shape", where=d.where(f), **({} if ok else {"detail": "returns `%s`, expected the comparison of type() with the argument" % (ir.show(got) if got else "?")}))
+        if nm == "type":
+            bad = None
+            for vt in (NULL, VT):
+                paths, linit = feasible_returns(f, vt)
+                if paths is None or not paths:
+                    bad = "conditions of type() are not evaluable for a %s vtable pointer" % vt
+                    break
+                for path in paths:
+                    end = path[-1]
+                    if end[0] != "return" or not ir.ekids(end[1]):
+                        bad = "a path does not return"
+                        break
+
+                    def chosen(n_):
+                        n_ = ir.strip(n_)
+                        if n_.get("kind") == "ConditionalOperator":
+                            kk = ir.ekids(n_)
+                            c_ = evalx(ir.sx(kk[0]), vt, linit)
+                            if c_ in (NULL, VT):
+                                c_ = c_ == VT
+                            return None if not isinstance(c_, bool) else chosen(kk[1] if c_ else kk[2])
+                        return n_
+                    rv = chosen(ir.ekids(end[1])[0])
+                    if rv is None:
+                        bad = "the returned arm is not decidable for a %s vtable pointer" % vt
+                        break
+                    if vt == NULL:
+                        ta = [x for x in ir.walk_expr(rv) if x.get("kind") == "CXXTypeidExpr"] + ([rv] if rv.get("kind") == "CXXTypeidExpr" else [])
+                        if not (ta and ((ta[0].get("typeArg") or {}).get("qualType")) == "void"):
+                            bad = "an empty any reports `%s`, expected typeid(void)" % d.text(rv)[:50]
+                    else:
+                        tb = uncast(ir.sx(rv))
+                        if not (tb[0] == "call" and tb[1] == ("mem", ("mem", ("this",), "vtable"), "type")):
+                            bad = "a non-empty any reports `%s`, expected this->vtable->type()" % d.text(rv)[:50]
+                if bad:
+                    break
+            (rep.violates if bad else rep.holds)(R, "any::type", "typeid(void) when empty, else the vtable's type()", where=d.where(f), **({"detail": bad} if bad else {}))
 
 
 # ---------------------------------------------------------------------------------------------------------------------
